@@ -22,7 +22,7 @@ fuzz_stage() {
   local ID="$1" SEED="${VERIF_SEED:-1}" OUT=$VERIF/out
   # runs chosen so that the stage takes roughly 5-10 minutes at the observed executions per second
   local RUNS=400000
-  case "$ID" in C06|C07) RUNS=60000;; C10) RUNS=80000;; C13) RUNS=8000;; C20) RUNS=40000;; esac
+  case "$ID" in C06|C07) RUNS=60000;; C10) RUNS=80000;; C13) RUNS=8000;; C20) RUNS=200000;; esac
   [ -n "${VERIF_FUZZ_RUNS:-}" ] && RUNS=$VERIF_FUZZ_RUNS
   mkdir -p $OUT/corpus $OUT/artifacts $OUT/logs
   if ! ( cd $VERIF/harness && cargo +nightly fuzz build --fuzz-dir fuzz --target-dir $VERIF/target/fuzz -s none all >$OUT/logs/fuzz-build.log 2>&1 ); then
